@@ -88,7 +88,7 @@ def build(spec):
             if c == 'f':
                 p['ignore'] = False      # explicitly shown (`Debug = true`, `ignore = false`, `ignore(false)`)
             if c in 'rb':
-                p['name'] = f'k{i}'
+                p['name'] = f'rk{i}'      # starts with r: a key must not be treated like a raw-identifier prefix
             if c in 'mb':
                 p['method'] = 'fmt_m'
             if c == 'l':
@@ -132,7 +132,7 @@ def oracle_impl(spec, t):
 
         def key(i, f):
             if f.code in 'rb':
-                return f'k{i}'
+                return f'rk{i}'
             return f.name if f.name is not None else f'_{i}'
         if spec.kind == 'enum' and v['kind'] == 'unit':
             body = f'f.write_str("{name}")'
@@ -333,6 +333,10 @@ def gen_specs(tier, seed):
         specs.append(Spec('struct', None, [dict(kind='tuple', vname=None, nf=None, fields=[])]))
         specs.append(Spec('struct', 'Rn', [dict(kind='named', vname=None, nf=None, fields=[])], False))
         specs.append(Spec('enum', True, [dict(kind='tuple', vname=None, nf=None, fields=[]), dict(kind='named', vname='Rv', nf=None, fields=[]), dict(kind='named', vname=None, nf=False, fields=['i'])]))
+        # wide shapes: 13 fields (positions >= 10 sort before 2 as strings; the field names are not in alphabetical order)
+        specs.append(Spec('struct', None, [dict(kind='tuple', vname=None, nf=None, fields=['p'] * S.WIDE)]))
+        specs.append(Spec('struct', None, [dict(kind='tuple', vname=None, nf=None, fields=['p', 'i'] * 6 + ['p'])], True))
+        specs.append(Spec('struct', None, [dict(kind='named', vname=None, nf=None, fields=['p'] * S.WIDE)]))
         # plain ones (twin #[derive(Debug)])
         specs.append(Spec('struct', None, [dict(kind='named', vname=None, nf=None, fields=['p', 'p'])]))
         specs.append(Spec('struct', None, [dict(kind='tuple', vname=None, nf=None, fields=['p', 'p', 'p'])]))
